@@ -341,17 +341,50 @@ def do_check(pid, tier, seed):
         cfg = os.path.join(SPEC, m["cfg"])
         mod = os.path.join(SPEC, m["module"])
         meta = os.path.join(wd, "meta-" + m["cfg"])
-        rc, out, secs = run_tlc(cfg, mod, m.get("workers", 8), meta, m.get("env", {}), m.get("timeout", 900), m.get("extra", ()))
-        with open(os.path.join(wd, m["cfg"] + ".log"), "w") as f:
-            f.write(out)
-        mm = re.search(r"(\d+) states generated, (\d+) distinct states found", out)
-        if not mm:
-            raise ToolError("model %s did not finish:\n%s" % (m["cfg"], "\n".join(out.splitlines()[-20:])))
-        gen, dist = int(mm.group(1)), int(mm.group(2))
+        logp = os.path.join(wd, m["cfg"] + ".log")
+        beh = os.path.join(wd, "behaviours-%s.ndjson" % m["cfg"])
+        # stream TLC's output: behaviours go to one file, everything else to the log
+        env = dict(os.environ)
+        env.update(m.get("env", {}))
+        env["JAVA_TOOL_OPTIONS"] = "-Xss1g -Xmx8g -XX:+UseParallelGC -XX:ParallelGCThreads=4"
+        cmd = [find_tlc(), "-workers", str(m.get("workers", 8)), "-metadir", meta, "-cleanup", "-noGenerateSpecTE", *m.get("extra", ()),
+               "-config", cfg, mod]
+        t1 = time.time()
+        n = 0
+        gen = dist = None
+        bad = False
+        errs = []
+        pr = subprocess.Popen(cmd, cwd=SPEC, env=env, stdout=subprocess.PIPE, stderr=subprocess.STDOUT, text=True, bufsize=1 << 20)
+        try:
+            with open(logp, "w") as lf, open(beh, "w") as bf:
+                for ln in pr.stdout:
+                    if ln.startswith('"@@ BEHAVIOUR '):
+                        bf.write(unq(ln.rstrip("\n")[len('"@@ BEHAVIOUR '):-1]) + "\n")
+                        n += 1
+                        continue
+                    lf.write(ln)
+                    mm = re.match(r"(\d+) states generated, (\d+) distinct states found", ln)
+                    if mm:
+                        gen, dist = int(mm.group(1)), int(mm.group(2))
+                    if "Error: Invariant" in ln or "is violated" in ln or "Error: Action property" in ln:
+                        bad = True
+                    if ln.startswith("Error:"):
+                        errs.append(ln.strip())
+                    if time.time() - t1 > m.get("timeout", 900):
+                        pr.kill()
+                        raise ToolError("TLC timed out on %s" % m["cfg"])
+            pr.wait(timeout=60)
+        finally:
+            if pr.poll() is None:
+                pr.kill()
+            shutil.rmtree(meta, ignore_errors=True)
+        secs = time.time() - t1
+        if gen is None:
+            with open(logp) as lf:
+                tail = lf.read().splitlines()[-20:]
+            raise ToolError("model %s did not finish:\n%s" % (m["cfg"], "\n".join(tail)))
         model_states += dist
         model_trans += gen
-        bad = ("Error: Invariant" in out) or ("is violated" in out) or ("Error: Action property" in out)
-        errs = [ln for ln in out.splitlines() if ln.startswith("Error:")]
         model_runs.append({"cfg": m["cfg"], "generated": gen, "distinct": dist, "secs": round(secs, 1), "violated": bad})
         if m.get("expect_violation"):
             # a configuration that drops the excuse for a known-finding class: TLC is expected to find the
@@ -363,20 +396,12 @@ def do_check(pid, tier, seed):
             continue
         if bad:
             rp = os.path.join(wd, "model-counterexample-%s.txt" % m["cfg"])
-            shutil.copy(os.path.join(wd, m["cfg"] + ".log"), rp)
+            shutil.copy(logp, rp)
             violations.append((rp, "bounded model %s: %s" % (m["cfg"], errs[0] if errs else "invariant violated")))
         elif errs:
             raise ToolError("model %s failed: %s" % (m["cfg"], errs[0]))
         # behaviours emitted by the model for replay into the implementation
         if m.get("replay"):
-            beh = os.path.join(wd, "behaviours-%s.ndjson" % m["cfg"])
-            n = 0
-            with open(beh, "w") as f:
-                for ln in out.splitlines():
-                    ln = ln.strip()
-                    if ln.startswith('"@@ BEHAVIOUR '):
-                        f.write(unq(ln[len('"@@ BEHAVIOUR '):-1]) + "\n")
-                        n += 1
             fp = os.path.join(wd, "fail-tlcreplay-%s.ndjson" % m["cfg"])
             p = subprocess.run([HARNESS, "tlcreplay", beh, "--fail", fp], stdout=subprocess.PIPE, stderr=subprocess.STDOUT, text=True, timeout=900)
             js = json.loads([x for x in p.stdout.splitlines() if x.startswith("{")][-1])
